@@ -28,6 +28,8 @@ var (
 	int64Pool = []int64{0, 1, -1, 4242, math.MaxInt64, math.MinInt64}
 	u32Pool   = []uint64{0, 1, 77, math.MaxUint32}
 	u64Pool   = []uint64{0, 1, 99, math.MaxInt64}
+	// struct side only: the Int64 attribute carries values above MaxInt64 as negative numbers and back
+	u64Struct = []uint64{0, 1, 99, math.MaxInt64, math.MaxInt64 + 1, math.MaxUint64}
 	f32Pool   = []float64{0, 1.5, -2.25, float64(float32(3.4e38)), float64(float32(1e-30))}
 	f64Pool   = []float64{0, 1.5, -2.25, 1e300, 2.5e-300}
 	durPool   = []int64{0, 1, -1, int64(90 * time.Minute), math.MaxInt64}
@@ -113,7 +115,7 @@ func genScalar(t *rapid.T, f *spec.Field, typ reflect.Type, label string) reflec
 	case spec.KUint32, spec.KFixed32:
 		return conv(pick(t, u32Pool, label))
 	case spec.KUint64, spec.KFixed64:
-		return conv(pick(t, u64Pool, label))
+		return conv(pick(t, u64Struct, label))
 	case spec.KBool:
 		return conv(rapid.Bool().Draw(t, label))
 	case spec.KString:
